@@ -130,6 +130,13 @@ func registerTime() {
 		if dc, ok := d.(int64); ok && dc < 0 {
 			d = int64(0)
 		}
+		if ex.sched != nil {
+			// a coroutine sleeps on a private timer: the others run meanwhile
+			fr.i.chanSeq++
+			t := &channel{cap: 1, id: fr.i.chanSeq, timer: true, fireAt: fr.i.binopV(token.ADD, i64T, ex.clock, d)}
+			fr.i.chanRecv(fr, t)
+			return nil
+		}
 		ex.clock = fr.i.binopV(token.ADD, i64T, ex.clock, d)
 		if ex.hooks.onSleep != nil {
 			call(fr.i, fr, 0, ex.hooks.onSleep, []value{args[0]})
